@@ -110,6 +110,14 @@ def replay_encoding(p):
             except strict.StrictError as se:
                 bad = f'{code.name} of {n} chars: prefix {b[:4].hex()}: {se}'
         return _res(p, bad, {'n': n, 'prefix': b[:4].hex() if b else None}, {'n': n, 'ident': ident})
+    if 'text_codepoints' in ob:
+        CP = [0, 31, 126, 127, 128, 129, 255, 256, 2047, 2048, 65535, 65536, 1114111]
+        c = chr(CP[a[1]])
+        a = [a[0], ('A' + c) if a[2] else c]
+        ob = 'text_content'
+    if 'dtime_year' in ob:
+        a = [a[0], 6, 15, 12, 0, 0]
+        ob = 'dtime'
     if 'text_content' in ob:
         code = RepC.IDENT if a[0] == 0 else RepC.ASCII
         s = a[1]
